@@ -596,13 +596,48 @@ def _float_eq(exp, got):
     return struct.pack("<d", float(exp)) == struct.pack("<d", got)
 
 
+def record_branch_ambiguity(n, d):
+    """At union n: does mapping datum d fit one branch exactly (every key accounted for) while ANOTHER
+    record branch accepts it only because validation ignores keys a record does not have?  Which of the
+    two a writer picks is not documented (fastavro: most top-level field names in common, first on a
+    tie) -- known finding, see KNOWN_FINDINGS.txt."""
+    n = deref(n)
+    if n.k != "union" or not isinstance(d, _abc.Mapping) or "-type" in d:
+        return False
+    exact = [b for b in n.branches if conforms(b, d, logical=False, strict_keys=True)]
+    sloppy = [b for b in n.branches if deref(b).k == "record" and conforms(b, d, logical=False)
+              and not conforms(b, d, logical=False, strict_keys=True)]
+    return bool(exact) and bool(sloppy)
+
+
+def has_record_branch_ambiguity(n, d, depth=0):
+    """record_branch_ambiguity anywhere inside datum d (walked along every conforming branch)."""
+    n = deref(n)
+    if depth > 400:
+        return False
+    if n.k == "union":
+        if isinstance(d, tuple) and len(d) == 2 and isinstance(d[0], str):
+            return any(branch_name(b) == d[0] and has_record_branch_ambiguity(b, d[1], depth + 1) for b in n.branches)
+        if record_branch_ambiguity(n, d):
+            return True
+        return any(conforms(b, d, logical=False) and has_record_branch_ambiguity(b, d, depth + 1) for b in n.branches)
+    if n.k == "record" and isinstance(d, _abc.Mapping):
+        return any(f.name in d and has_record_branch_ambiguity(f.type, d[f.name], depth + 1) for f in n.fields)
+    if n.k == "array" and isinstance(d, (list, tuple)):
+        return any(has_record_branch_ambiguity(n.items, x, depth + 1) for x in d)
+    if n.k == "map" and isinstance(d, _abc.Mapping):
+        return any(has_record_branch_ambiguity(n.values, x, depth + 1) for x in d.values())
+    return False
+
+
 def normal_eq(n, d, r, loose=False):
     """Is r an acceptable read-back of datum d written under node n?  Accepts exactly
     the documented normalisations: defaults for omitted fields, sequences -> lists,
     numbers under float/double -> float, binary32 rounding, NaN ~ NaN; at a union any
     branch the datum conforms to.  loose=True (set below a union at which a mapping datum
     conforms both to a record branch and to a map branch -- precedence between the two is
-    nowhere documented, known finding) additionally tolerates record keys being dropped."""
+    nowhere documented, known finding; likewise when it fits one branch exactly and another record
+    branch only by ignoring extra keys) additionally tolerates record keys being dropped."""
     n = deref(n)
     k = n.k
     if k == "union":
@@ -612,6 +647,8 @@ def normal_eq(n, d, r, loose=False):
             conf = [deref(b).k for b in n.branches if conforms(b, d, logical=False)]
             if "map" in conf and "record" in conf:
                 loose = True
+            elif record_branch_ambiguity(n, d):
+                loose = True   # second documented-nowhere precedence: exact record vs record that ignores extra keys
         if isinstance(d, float) and any(deref(b).k == "double" for b in n.branches):
             # documented writer behaviour: a Python float is never narrowed to 'float' when the
             # union offers 'double' -- it must come back bit-exact
